@@ -34,3 +34,21 @@ Theorem C01_text_decoder_progress : forall named s, s <> [] ->
   (length (snd (next_piece named s)) < length s)%nat.
 Proof. exact next_piece_progress. Qed.
 Print Assumptions C01_text_decoder_progress.
+
+(* the value parser (text nodes, attribute values: static pieces, entities, {{ }} bindings with the
+   whole expression parser inside, Model/ExprParse.v), run with the input length as fuel, always
+   stops because its `until` predicate holds or the input is exhausted - for every input, every
+   `until` predicate and every entity table - and never moves backwards *)
+From GE Require Import Model.ExprParse Proofs.ExprParseProofs.
+Theorem C01_value_parser_terminates : forall named stop s,
+  let '(_, rest) := parse_value named stop s in stop rest = true \/ rest = [].
+Proof. exact parse_value_done. Qed.
+Print Assumptions C01_value_parser_terminates.
+
+Theorem C01_expression_parser_never_moves_backwards : forall fuel s,
+  match parse_cond_fuel fuel s with
+  | POk _ rest => (length rest <= length s)%nat
+  | PFail pos => (length pos <= length s)%nat
+  end.
+Proof. exact parse_cond_fuel_le. Qed.
+Print Assumptions C01_expression_parser_never_moves_backwards.
